@@ -214,6 +214,66 @@ def rule_gj(chk):
     chk.decide(okop, 'gj-elimination-full-width', 'forward', node=inner, file=LA, func='gj_solve',
                detail_bad='the row operation of the forward elimination does not cover all n+nb columns',
                detail_ok='row operation over j in [0, n+nb)')
+    # --- every row below the pivot is eliminated: the row operation is not skipped on a condition over matrix entries
+    M.set_parents(fn)
+    for r in rowop:
+        lo3, hi3 = A._range(r.iter, ints)
+        if not (lo3.is_zero() and hi3 == width):
+            continue
+        guards = []
+        cur = r
+        while getattr(cur, 'parent', None) is not None and cur.parent is not inner:
+            cur = cur.parent
+            if isinstance(cur, ast.If):
+                guards.append(U(cur.test))
+        chk.decide(not guards, 'gj-elimination-full-width', 'forward:every-row', node=r, file=LA, func='gj_solve',
+                   detail_bad='the elimination of a row is skipped when %s: an entry below the pivot that is small but not zero stays in place and back substitution ignores it, so a '
+                              'badly scaled but regular system is "solved" with O(1) errors and return code 0' % guards, detail_ok='unconditional for every row below the pivot')
+    # --- back substitution: the pivot row is normalised and the column above the pivot cleared over every column that is read afterwards, i.e. [n, n+nb) at least
+    later = [s_ for s_ in fn.body if isinstance(s_, ast.For) and s_.lineno > loop.lineno]
+    col_loops = 0
+    for top in later:
+        for asg in ast.walk(top):
+            if not (isinstance(asg, ast.Assign) and isinstance(asg.targets[0], ast.Subscript) and U(asg.targets[0].value) == 'm'):
+                continue
+            lp = M.enclosing(asg, (ast.For,))
+            if lp is None:
+                continue
+            tvar = U(lp.target)
+            # column index of the store as a polynomial; local aliases (backCol = rb + augCol - backColr - 1) substituted
+            loc = {}
+            for a2 in lp.body:
+                if isinstance(a2, ast.Assign) and isinstance(a2.targets[0], ast.Name) and a2.lineno < asg.lineno:
+                    pv2 = P(a2.value, loc)
+                    if pv2 is not None:
+                        loc[a2.targets[0].id] = pv2
+            idx = P(asg.targets[0].slice, loc)
+            if idx is None:
+                continue
+            cr = idx.coeff_of(tvar)
+            if cr is None or not cr[0].is_const() or abs(cr[0].const_value()) != 1:
+                continue        # the loop variable is the row, not the column
+            a_co, rest = cr
+            lo4, hi4 = A._range(lp.iter, ints)
+            # strip the row term nt*<row>
+            ends = [a_co * lo4 + rest, a_co * (hi4 - Poly.const(1)) + rest]
+            cmin, cmax = (ends[0], ends[1]) if a_co.const_value() > 0 else (ends[1], ends[0])
+            rowterm = None
+            for rv in ('rb', 'kup', 'rr', 'i'):
+                if (cmin - width * Poly.var(rv)).atoms() <= set(['n', 'nb', 'rb']) and (cmax - width * Poly.var(rv)).atoms() <= set(['n', 'nb', 'rb']):
+                    rowterm = rv
+                    break
+            if rowterm is None:
+                continue
+            cmin, cmax = cmin - width * Poly.var(rowterm), cmax - width * Poly.var(rowterm)
+            col_loops += 1
+            ok_hi = cmax == width - Poly.const(1)
+            ok_lo = cmin in (Poly.var('rb'), Poly.var('n'), Poly.const(0)) or (cmin - Poly.var('rb')).is_zero()
+            chk.decide(ok_hi and ok_lo, 'gj-back-substitution-covers-rhs', 'columns@%d' % lp.lineno, node=lp, file=LA, func='gj_solve',
+                       detail_bad='this back-substitution update touches columns %s .. %s of the row; the right-hand sides live in columns n .. n+nb-1, so the range must end at n+nb-1 and '
+                                  'start at or before n (pivot column rb or n): with more right-hand sides than unknowns some columns are neither scaled nor back-substituted' % (cmin, cmax),
+                       detail_ok='columns %s .. %s' % (cmin, cmax))
+    chk.floor('back-substitution column loops', col_loops, 2)
     # --- near-zero pivot test dominates the division
     g = C.build_cfg(inner.body)
     tests = [n.id for n in g.nodes if n.kind == 'test' and isinstance(n.ast, ast.If) and 'abs(' in U(n.ast.test)
@@ -331,6 +391,25 @@ def rule_eigen_wrapper(chk):
             bool(calls) and mul[0].lineno > max(c.lineno for c in calls)
         chk.decide(ok, 'eigen-scaling-wrapper', 'eigenvalues-scaled-back', node=mul[0] if mul else br[0], file=L3, func=who, detail_bad='every eigenvalue must be multiplied by s after the iteration',
                    detail_ok='d[i] *= s for all i')
+    # tql2: the search for a negligible sub-diagonal entry stops at the sentinel e[n-1] = 0 for EVERY tst1 >= 0 (tst1 is 0 when the leading entries vanish),
+    # which needs a non-strict comparison; otherwise m runs to n and e[n] / d[n] are read and divided by
+    q = M.find_func(t, 'tql2')
+    sent = [a for a in ast.walk(q) if isinstance(a, ast.Assign) and isinstance(a.targets[0], ast.Subscript) and U(a.targets[0].value) == 'e' and
+            U(a.targets[0].slice).replace(' ', '') == 'n-1' and isinstance(a.value, ast.Constant) and a.value.value == 0]
+    srch = [w for w in ast.walk(q) if isinstance(w, ast.While) and U(w.test).replace(' ', '') == 'm<n']
+    ok = bool(sent) and len(srch) == 1
+    if ok:
+        brk = [i for i in srch[0].body if isinstance(i, ast.If) and any(isinstance(b, ast.Break) for b in i.body)]
+        ok = len(brk) == 1 and isinstance(brk[0].test, ast.Compare) and len(brk[0].test.ops) == 1
+        if ok:
+            tcmp = brk[0].test
+            lhs, rhs, op = U(tcmp.left).replace(' ', ''), U(tcmp.comparators[0]).replace(' ', ''), tcmp.ops[0]
+            small_lhs = lhs in ('fabs(e[m])', 'abs(e[m])')
+            ok = (small_lhs and isinstance(op, ast.LtE)) or (rhs in ('fabs(e[m])', 'abs(e[m])') and isinstance(op, ast.GtE))
+    chk.decide(ok, 'eigen-scaling-wrapper', 'tql2:search-stops-at-the-sentinel', node=srch[0] if srch else q, file=L3, func='tql2',
+               detail_bad='the scan `while m < n` must stop at the sentinel e[n-1] = 0 through `fabs(e[m]) <= eps*tst1`; with a strict `<` it does not when tst1 == 0 (zero leading '
+                          'diagonal and sub-diagonal): m reaches n, the QL step reads past the arrays and divides by zero - the matrix is returned undiagonalised',
+               detail_ok='e[n-1] = 0 and a non-strict test: the scan always stops inside the array')
     z = M.find_func(t, 'zero_matrix_case')
     M.set_parents(z)
     dz = [a for a in ast.walk(z) if isinstance(a, ast.Assign) and isinstance(a.targets[0], ast.Subscript) and U(a.targets[0].value) == 'd']
